@@ -539,7 +539,10 @@ def run_untyped(spec):
     L = dy.L
     rng = random.Random(h64("C03u", spec["seed"], spec["name"]))
     table = L.command_table()
-    untyped_codes = sorted(c for c, k in table.items() if issubclass(k, UndefinedMessage))
+    # "without a typed implementation" = registered, but not as a DefinedMessage (whatever else the class derives
+    # from): the library's own class hierarchy does not decide which commands are judged
+    from diameter.message import DefinedMessage
+    untyped_codes = sorted(c for c, k in table.items() if not issubclass(k, DefinedMessage))
 
     def attr_name(a):
         ent = L.dict_lookup(a.code, a.vendor)
@@ -585,8 +588,13 @@ def run_untyped(spec):
         return None
 
     for i in range(spec["n"]):
-        code = rng.choice(untyped_codes) if rng.random() < 0.8 else rng.randrange(3000, 4000)
-        if code in table and not issubclass(table[code], UndefinedMessage):
+        # every registered untyped command first (in an order that differs from shard to shard), then at random
+        if i < len(untyped_codes):
+            code = untyped_codes[(i + h64("C03uo", spec["name"]) % len(untyped_codes)) % len(untyped_codes)]
+            dy.cov["untyped_codes_swept"] = dy.cov.get("untyped_codes_swept", 0) + 1
+        else:
+            code = rng.choice(untyped_codes) if rng.random() < 0.8 else rng.randrange(3000, 4000)
+        if code in table and issubclass(table[code], DefinedMessage):
             continue
         nodes = T.random_forest(rng, rng.randrange(0, 10), maxdepth=4)
         if nodes and rng.random() < 0.6:
